@@ -9,3 +9,8 @@ import PorepyVerif.C11.Props
 #print axioms PorepyVerif.C11.face_flux_exact
 #print axioms PorepyVerif.C11.face_pressure_exact
 #print axioms PorepyVerif.C11.mpfa2d_linear_exact
+#print axioms PorepyVerif.C11.mpfa2d_const_zero_flux
+#print axioms PorepyVerif.C11.mpfa2d_regions_wellformed
+#print axioms PorepyVerif.C11.mpfa2d_regions_nonsingular
+#print axioms PorepyVerif.C11.mpfa2d_gradients_sound
+#print axioms PorepyVerif.C11.mpfa2d_apply_exact
